@@ -339,6 +339,7 @@ func checkC20(c *core.Ctx) error {
 	checkErrorBranches(c)
 	checkInterfaceComparisons(c)
 	checkOptionalScratch(c)
+	checkTipGuard(c)
 	checkRestartProtocol(c)
 	checkOptionSwitches(c)
 	checkOptionSpreading(c)
